@@ -441,6 +441,105 @@ Fixpoint tty_chunks (ctx : rctx) (st : wstate) (ts : tstate) (chunks : list (lis
   end.
 
 (* ---------- operations offered to a client of the writer ---------- *)
+(* the puts of Text::render; results of the individual puts are ignored by the code *)
+Fixpoint put_cells (ctx : rctx) (st : wstate) (cells : list ccell) : outcome wstate :=
+  match cells with
+  | [] => Ok st
+  | c :: t =>
+      match put_cell ctx st c with
+      | Ok (st', _) => put_cells ctx st' t
+      | Err e => Err e
+      | Panic s => Panic s
+      | OutOfFuel => OutOfFuel
+      end
+  end.
+
+(* what a client can do with the writer itself -- also through `adapter.parent()` between two
+   writes of one Utf8CellWriter / TTYCellWriter *)
+Inductive pop :=
+| PChar (ch : N)                     (* put_char *)
+| PCell (c : ccell)                  (* put_cell (char with its own face, glyph, image) *)
+| PFace (f : face)                   (* set_face *)
+| PWraps (b : bool)                  (* set_wraps *)
+| PCursor (r c : nat)                (* TerminalWriter::set_cursor *)
+| PText (cells : list ccell).        (* put_text: every cell of a Text put, results ignored *)
+
+Definition simple_step (ctx : rctx) (st : wstate) (o : pop) : outcome (wstate * bool) :=
+  match o with
+  | PChar ch => put_char ctx st ch
+  | PCell c => put_cell ctx st c
+  | PFace f => Ok (set_face st f, true)
+  | PWraps b => Ok (set_wraps st b, true)
+  | PCursor r c =>
+      let l := w_l st in
+      Ok (set_l st (mkL (l_h l) (l_w l) (Nat.min r (sh_height (w_sh st))) (Nat.min c (sh_width (w_sh st)))), true)
+  | PText cells =>
+      match put_cells ctx st cells with
+      | Ok st' => Ok (st', true)
+      | Err e => Err e
+      | Panic s => Panic s
+      | OutOfFuel => OutOfFuel
+      end
+  end.
+
+(* one adapter kept over several writes: byte chunks handed to adapter.write, and operations on
+   adapter.parent() in between.  The adapter's decoder lives as long as the adapter; operations on
+   the parent do not touch it (a character split around a parent operation is completed by the
+   bytes that follow and put after whatever the parent operation did). *)
+Inductive sitem := SBytes (chunk : list N) | SParent (o : pop).
+
+(* Utf8CellWriter; the caller gives up at the first Err (the rest of the session is not run) *)
+Fixpoint sess_u (ctx : rctx) (st : wstate) (items : list sitem) : outcome (wstate * bool) :=
+  match items with
+  | [] => Ok (st, true)
+  | SBytes ch :: rest =>
+      match write_bytes ctx st ch with
+      | Ok (st', WErr) => Ok (st', false)
+      | Ok (st', WDone) => sess_u ctx st' rest
+      | Err e => Err e
+      | Panic s => Panic s
+      | OutOfFuel => OutOfFuel
+      end
+  | SParent o :: rest =>
+      match simple_step ctx st o with
+      | Ok (st', _) => sess_u ctx st' rest
+      | Err e => Err e
+      | Panic s => Panic s
+      | OutOfFuel => OutOfFuel
+      end
+  end.
+
+(* TTYCellWriter *)
+Fixpoint sess_t (ctx : rctx) (st : wstate) (ts : tstate) (items : list sitem) : outcome (wstate * tstate) :=
+  match items with
+  | [] => Ok (st, ts)
+  | SBytes ch :: rest =>
+      match tty_write ctx st ts ch with
+      | Ok (st', ts') => sess_t ctx st' ts' rest
+      | other => other
+      end
+  | SParent o :: rest =>
+      match simple_step ctx st o with
+      | Ok (st', _) => sess_t ctx st' ts rest
+      | Err e => Err e
+      | Panic s => Panic s
+      | OutOfFuel => OutOfFuel
+      end
+  end.
+
+(* adjacent byte chunks joined: what is left of a session when one forgets how the bytes between
+   two parent operations were split across write calls *)
+Fixpoint merge_items (items : list sitem) : list sitem :=
+  match items with
+  | [] => []
+  | SBytes a :: rest =>
+      match merge_items rest with
+      | SBytes b :: r' => SBytes (a ++ b) :: r'
+      | r' => SBytes a :: r'
+      end
+  | SParent o :: rest => SParent o :: merge_items rest
+  end.
+
 Inductive wop :=
 | OChar (ch : N)                     (* put_char *)
 | OCell (c : ccell)                  (* put_cell (char with its own face, glyph, image) *)
@@ -450,8 +549,11 @@ Inductive wop :=
 | OWrite (chunks : list (list N))    (* io::Write::write once per chunk, stop at the first Err *)
 | OWriteU (chunks : list (list N))   (* the same through writer.by_ref().utf8_writer(): Utf8CellWriter
                                         with a decoder of its own, dropped afterwards *)
-| OWriteT (chunks : list (list N)).  (* through writer.by_ref().tty_writer(): TTYCellWriter decoding
+| OWriteT (chunks : list (list N))   (* through writer.by_ref().tty_writer(): TTYCellWriter decoding
                                         characters and SGR escape sequences *)
+| OText (cells : list ccell)         (* put_text *)
+| OSessU (items : list sitem)        (* one utf8_writer() used for several writes, parent() in between *)
+| OSessT (items : list sitem).       (* one tty_writer() used for several writes, parent() in between *)
 
 (* the same operation with all its bytes passed in one call: two programs with equal images
    differ only in how the bytes of each write are split across calls *)
@@ -460,18 +562,19 @@ Definition merge_op (o : wop) : wop :=
   | OWrite chunks => OWrite [concat chunks]
   | OWriteU chunks => OWriteU [concat chunks]
   | OWriteT chunks => OWriteT [concat chunks]
+  | OSessU items => OSessU (merge_items items)
+  | OSessT items => OSessT (merge_items items)
   | other => other
   end.
 
 Definition wop_step (ctx : rctx) (st : wstate) (o : wop) : outcome (wstate * bool) :=
   match o with
-  | OChar ch => put_char ctx st ch
-  | OCell c => put_cell ctx st c
-  | OFace f => Ok (set_face st f, true)
-  | OWraps b => Ok (set_wraps st b, true)
-  | OCursor r c =>
-      let l := w_l st in
-      Ok (set_l st (mkL (l_h l) (l_w l) (Nat.min r (sh_height (w_sh st))) (Nat.min c (sh_width (w_sh st)))), true)
+  | OChar ch => simple_step ctx st (PChar ch)
+  | OCell c => simple_step ctx st (PCell c)
+  | OFace f => simple_step ctx st (PFace f)
+  | OWraps b => simple_step ctx st (PWraps b)
+  | OCursor r c => simple_step ctx st (PCursor r c)
+  | OText cells => simple_step ctx st (PText cells)
   | OWrite chunks => write_chunks ctx st chunks
   | OWriteU chunks =>
       match write_chunks ctx (set_dec st u0) chunks with
@@ -480,6 +583,19 @@ Definition wop_step (ctx : rctx) (st : wstate) (o : wop) : outcome (wstate * boo
       end
   | OWriteT chunks =>
       match tty_chunks ctx st (t0 (cmd_dfa ctx)) chunks with
+      | Ok (st', _) => Ok (st', true)
+      | Err e => Err e
+      | Panic s => Panic s
+      | OutOfFuel => OutOfFuel
+      end
+  | OSessU items =>
+      (* the adapter's decoder is not the TerminalWriter's own *)
+      match sess_u ctx (set_dec st u0) items with
+      | Ok (st', b) => Ok (set_dec st' (w_dec st), b)
+      | other => other
+      end
+  | OSessT items =>
+      match sess_t ctx st (t0 (cmd_dfa ctx)) items with
       | Ok (st', _) => Ok (st', true)
       | Err e => Err e
       | Panic s => Panic s
@@ -509,24 +625,79 @@ Fixpoint wops_run (ctx : rctx) (st : wstate) (ops : list wop) : outcome (wstate 
 Definition text_put (tface : face) (cells : list ccell) (c : ccell) : list ccell :=
   cells ++ [mkCell (overlay tface (c_face c)) (c_kind c)].
 
+(* ---------- TextDeserializer (src/view/text.rs:219-284) ---------- *)
+(* Text = String | [Text] | { face, wraps, glyph | text }.  Faces arrive parsed (FaceDeserializer is
+   C14 matter); a glyph is the cell kind it becomes. *)
+Inductive jtext :=
+| JStr (chars : list N)
+| JArr (items : list jtext)
+| JObj (f : option face) (wr : option bool) (body : jbody)
+with jbody :=
+| JBGlyph (k : kind)
+| JBText (t : jtext)
+| JBNone.
+
+(* Text as a CellWrite target: cells, wraps flag, current face *)
+Record jstate := mkJ { j_cells : list ccell; j_wraps : bool; j_face : face }.
+
+Definition j0 : jstate := mkJ [] true face0.
+
+(* Text::put_cell through put_char / put_glyph: the new cell carries the current face, overlaid on
+   itself by Text::put_cell *)
+Definition j_put (st : jstate) (k : kind) : jstate :=
+  mkJ (text_put (j_face st) (j_cells st) (mkCell (j_face st) k)) (j_wraps st) (j_face st).
+
+Fixpoint jt_collect (st : jstate) (t : jtext) {struct t} : jstate :=
+  match t with
+  | JStr chars => fold_left (fun a ch => j_put a (KChar ch)) chars st
+  | JArr items => (fix go (l : list jtext) (a : jstate) {struct l} : jstate :=
+                     match l with [] => a | x :: r => go r (jt_collect a x) end) items st
+  | JObj f wr body =>
+      let face := match f with Some x => x | None => face0 end in
+      let st1 := match wr with Some b => mkJ (j_cells st) b (j_face st) | None => st end in
+      let old := j_face st1 in
+      let st2 := mkJ (j_cells st1) (j_wraps st1) (overlay old face) in
+      let st3 := match body with
+                 | JBGlyph k => j_put st2 k
+                 | JBText t' => jt_collect st2 t'
+                 | JBNone => st2
+                 end in
+      mkJ (j_cells st3) (j_wraps st3) old
+  end.
+
+(* what the document says, independently of any state: the characters and glyphs in document order,
+   each under the faces of the objects around it (outermost first) *)
+Fixpoint jt_emit (cur : face) (t : jtext) {struct t} : list ccell :=
+  match t with
+  | JStr chars => map (fun ch => mkCell (overlay cur cur) (KChar ch)) chars
+  | JArr items => (fix go (l : list jtext) : list ccell :=
+                     match l with [] => [] | x :: r => jt_emit cur x ++ go r end) items
+  | JObj f _ body =>
+      let cur' := overlay cur (match f with Some x => x | None => face0 end) in
+      match body with
+      | JBGlyph k => [mkCell (overlay cur' cur') k]
+      | JBText t' => jt_emit cur' t'
+      | JBNone => []
+      end
+  end.
+
+(* the wraps flag after the document: the last "wraps" met in document order (a glyph object's
+   "text" is not visited) *)
+Fixpoint jt_wraps (w : bool) (t : jtext) {struct t} : bool :=
+  match t with
+  | JStr _ => w
+  | JArr items => (fix go (l : list jtext) (a : bool) {struct l} : bool :=
+                     match l with [] => a | x :: r => go r (jt_wraps a x) end) items w
+  | JObj _ wr body =>
+      let w1 := match wr with Some b => b | None => w end in
+      match body with JBText t' => jt_wraps w1 t' | _ => w1 end
+  end.
+
 (* Layout::apply_to: the sub-view rows pos.row..pos.row+h, cols pos.col..pos.col+w, selectors
    resolved by ViewBounds for Range<usize> *)
 Definition apply_layout (sh : shape) (pr pc h w : nat) : shape :=
   view sh (resolve (sh_height sh) (Rng (Z.of_nat pr) (Z.of_nat (pr + h))))
           (resolve (sh_width sh) (Rng (Z.of_nat pc) (Z.of_nat (pc + w)))).
-
-(* the puts of Text::render; results of the individual puts are ignored by the code *)
-Fixpoint put_cells (ctx : rctx) (st : wstate) (cells : list ccell) : outcome wstate :=
-  match cells with
-  | [] => Ok st
-  | c :: t =>
-      match put_cell ctx st c with
-      | Ok (st', _) => put_cells ctx st' t
-      | Err e => Err e
-      | Panic s => Panic s
-      | OutOfFuel => OutOfFuel
-      end
-  end.
 
 (* Text::render (src/view/text.rs:171): writer over layout.apply_to(surf) -- the layout's position
    (set by the parent view) and size -- with the text's wraps flag *)
